@@ -26,6 +26,9 @@ TOKENS = {
     'el': [],
     'ed': {},
     'h1': '3f2c-11aa,/b?c"d\\e-9',
+    # a TEXT frame (a well-formed EVENT) that arrives while attachments are
+    # owed: it is taken for the attachment
+    'tx1': '2["e_v","v1"]',
 }
 
 BINARY_TOKENS = {'b1', 'b2', 'db1', 'ddb1'}
